@@ -199,6 +199,22 @@ Definition outs_reachable (p : gpat) (r : pid) : Prop :=
   forall pv, In pv (gp_outs p) ->
     exists q i np, pv = POut q i /\ reach (gp_nodes p) r q /\ nth_error (gp_nodes p) q = Some np /\ i < List.length (np_outs np).
 
+(* the same for patterns with several output nodes *)
+Definition outs_reachable_multi (p : gpat) : Prop :=
+  forall pv, In pv (gp_outs p) ->
+    exists r q i np, In r (output_nodes p) /\ pv = POut q i /\ reach (gp_nodes p) r q /\
+                     nth_error (gp_nodes p) q = Some np /\ i < List.length (np_outs np).
+
+(* the candidate tuples tried by SimplePatternMatcher.match for root node `root` *)
+Definition candidates (p : gpat) (g : hgraph) (root : nid) : list (list nid) :=
+  match output_nodes p with
+  | [] => []
+  | [_] => [[root]]
+  | _ :: others =>
+      let ids := map (fun q => match nth_error (gp_nodes p) q with Some np => np_opid np | None => None end) others in
+      product ([root] :: candidate_lists (g_nodes g) g ids false)
+  end.
+
 (* what the matcher observed, as a sigma *)
 Definition sigma_of (m : matched) : sigma := mkSig (m_nb m) (m_b m) (m_vb m).
 
